@@ -24,6 +24,8 @@ RULE = ('Hypothesis-generated histories over a small resource tree (root, sub-ma
         'runs exactly on the first access after construction/clear, handle.cached equals the model flag after '
         'every step. '
         'A bulk operation may create and load 70-1100 further handles. '
+        ''
+        'Resource kinds include a resource that is itself a Handle; two handles live under private-looking names (__hp). '
         'Non-trivial = a falsy/odd value accessed >= 2 times through >= 2 different access paths '
         'with a clear in between. Distinct = sha1 of canonical JSON.')
 ASSUMPTIONS = [
